@@ -180,8 +180,13 @@ func srCall(ctx context.Context, id int64, size int, poison bool) (unexpected an
 var srInfoX = log.RegisterLevel(300, "INFOX")
 
 func srLevelOf(id int64) log.Level {
-	if id%5 == 3 {
+	switch {
+	case id%5 == 3:
 		return srInfoX
+	case id%7 == 2:
+		return log.ErrorLevel
+	case id%7 == 5:
+		return log.WarnLevel
 	}
 	return log.InfoLevel
 }
@@ -289,7 +294,7 @@ func cmdSyncRec(f hx.Flags, r *hx.Result) {
 	}
 	defer out.Close()
 	written := 0
-	sinks := []string{"console", "slowsink", "slowsink+loggerlayout", "file", "rolling", "console+slowsink", "file+file"}
+	sinks := []string{"console", "slowsink", "slowsink+loggerlayout", "file", "rolling", "console+slowsink", "file+file", "levelled+loggerlayout"}
 	layouts := []string{"TextLayout", "JSONLayout"}
 	ctx := context.Background()
 	for run := 0; run < runs && !hx.Stopped(); run++ {
@@ -338,6 +343,10 @@ func cmdSyncRec(f hx.Flags, r *hx.Result) {
 		case "slowsink+loggerlayout":
 			cfg["appender.out.type"] = "SlowSink"
 			ex["layout.type"] = layout
+		case "levelled+loggerlayout": // the logger formats once; its sinks select by level: everything / WARN and above
+			cfg["appender.out.type"] = "SlowSink"
+			cfg["appender.out2.type"] = "Console"
+			ex["layout.type"] = layout
 		case "file":
 			cfg["appender.out.type"] = "File"
 			cfg["appender.out.fileDir"] = dir
@@ -359,8 +368,14 @@ func cmdSyncRec(f hx.Flags, r *hx.Result) {
 			cfg["appender.out.layout.type"] = layout
 		}
 		refs := []sys.Ref{{Ref: "out"}}
+		if sinkKind == "levelled+loggerlayout" {
+			refs[0].Level = "TRACE~FATAL" // an explicit upper bound: without one the range would end where the other reference begins
+		}
 		if sinkKind == "console+slowsink" || sinkKind == "file+file" {
 			refs = append(refs, sys.Ref{Ref: "out2"})
+		}
+		if sinkKind == "levelled+loggerlayout" {
+			refs = append(refs, sys.Ref{Ref: "out2", Level: "WARN"})
 		}
 		cfg.AddLogger("lg", "Logger", "", "sync_tag", refs, len(refs) > 1, ex)
 		// every third run installs a context-fields hook that hands out one shared slice with spare capacity
@@ -511,8 +526,25 @@ func cmdSyncRec(f hx.Flags, r *hx.Result) {
 		switch sinkKind {
 		case "console":
 			writes = con.writes
-		case "console+slowsink":
+		case "console+slowsink", "levelled+loggerlayout":
 			writes = append(append([][]byte(nil), con.writes...), slowSinkLog.writes...)
+			if sinkKind == "levelled+loggerlayout" {
+				// every sink receives one line per event it selects: all of them / those at WARN and above
+				wantAll, wantWarn := 0, 0
+				for _, e := range all {
+					if e.poison {
+						continue
+					}
+					wantAll++
+					if e.size == srBare || srLevelOf(e.id).Code() >= log.WarnLevel.Code() {
+						wantWarn++
+					}
+				}
+				if len(slowSinkLog.writes) != wantAll || len(con.writes) != wantWarn {
+					r.Violate("lines-per-sink:"+sinkKind, desc, "the unfiltered sink holds %d lines (events: %d), the sink at WARN and above holds %d (events at WARN and above: %d)",
+						len(slowSinkLog.writes), wantAll, len(con.writes), wantWarn)
+				}
+			}
 		case "slowsink", "slowsink+loggerlayout":
 			writes = slowSinkLog.writes
 		default:
